@@ -128,7 +128,7 @@ def build() -> Check:
         if traces:
             ck.sample({"cell": [name, st], "trace": trace_sig(traces[0])})
     ck.floor("terminal_cells", n_cells, 13)
-    ck.floor("traces", n_traces, 30)
+    ck.floor("traces", n_traces, 10)
 
     # R3 --- single writer of ExecutionState.operations ---------------------------------
     allowed = {"state.py:ExecutionState.__init__", "state.py:ExecutionState.fetch_paginated_operations"}
